@@ -66,6 +66,8 @@ POPS = {
     "batch_norm_train": (1, lambda L, t, a: L.sg.batch_norm(t[0], None, None, None, None, True, 0.1, 1e-5),
                          lambda x, a: R.batch_norm(x[0], None, None, None, None, True, 0.1, 1e-5)[0]),
     "unfold2d": (1, lambda L, t, a: L.sg.unfold(t[0], a["k"], 1, a["s"], a["p"]), lambda x, a: R.unfold(x[0], a["k"], 1, a["s"], a["p"])),
+    "ce_const": (1, lambda L, t, a: L.sg.cross_entropy(t[0], L.Tensor(np.asarray(a["target"], dtype=np.int64))),
+                 lambda x, a: R.cross_entropy(x[0], np.asarray(a["target"]))),
     "bce_logits": (2, lambda L, t, a: L.sg.binary_cross_entropy_with_logits(t[0], L.sg.sigmoid(t[1])),
                    lambda x, a: R.bce_logits(x[0], R.sigmoid(x[1]))),
     # piecewise-linear ops: only generated with a margin from the kink (values checked at generation time)
@@ -289,6 +291,10 @@ def generate(rng, n_instr, n_leaves, allow_kinks=False, big=False, leaves=None, 
             elif op in ("mse", "bce_logits"):
                 if x[0].shape != x[1].shape:
                     continue
+            elif op == "ce_const":
+                if r != 2 or x[0].shape[1] < 2:
+                    continue
+                args = {"target": [int(v) for v in rng.integers(0, x[0].shape[1], x[0].shape[0])]}
             elif op == "avgpool1d":
                 if r != 3 or x[0].shape[2] < 2:
                     continue
